@@ -9,9 +9,18 @@ ev  == Rec[l]
 
 BadNodes(e) == {i \in DOMAIN e.dag : ~(e.dag[i].id = i /\ StepOK(e.dag[i], e.dag, e.asserted))}
 Verdict(e) ==
-  IF e.panic THEN "panic"
+  IF e.ev = "flat" THEN "ok"                  \* flat events carry no DAG (FlatVerdict judges them)
+  ELSE IF e.panic THEN "panic"
   ELSE IF BadNodes(e) # {} THEN "step"
   ELSE IF ~MatchEqInj(e.dag[e.root].l, e.dag[e.root].r, e.query.l, e.query.r) THEN "conclusion"
+  ELSE "ok"
+
+(* the flat rendering of the same proof (judged only when the DAG was obtained) *)
+FlatVerdict(e) ==
+  IF e.flat_status = "none" THEN "ok"
+  ELSE IF e.flat_status # "ok" THEN e.flat_status              \* "panic", "unreadable", "hang"
+  ELSE IF FlatBadSteps(e.flat, e.asserted) # {} THEN "step"
+  ELSE IF ~FlatConcludes(e.flat, e.query.l, e.query.r) THEN "conclusion"
   ELSE "ok"
 
 TraceInit == l = 1
@@ -20,6 +29,10 @@ TraceNext == /\ l <= Len(Rec) /\ l' = l + 1
                 IF v = "ok" THEN TRUE
                 ELSE PrintT("PROOFBAD " \o ToJson([i |-> l, verdict |-> v,
                         nodes |-> IF ev.panic THEN << >> ELSE SetToSeq(BadNodes(ev))]))
+             /\ LET fv == FlatVerdict(ev) IN
+                IF fv = "ok" THEN TRUE
+                ELSE PrintT("FLATBAD " \o ToJson([i |-> l, verdict |-> fv,
+                        steps |-> IF ev.flat_status = "ok" THEN SetToSeq(FlatBadSteps(ev.flat, ev.asserted)) ELSE << >>]))
 TraceSpec == TraceInit /\ [][TraceNext]_l
 TraceAccepted == TLCGet("stats").diameter - 1 = Len(Rec)
 =============================================================================
